@@ -255,6 +255,17 @@ def check_container_transfer(src, dst, quantity, result, exc, nested):
                        'src_after': F.snap_contents(s2), 'dst_after': F.snap_contents(d2)})
         if sc.get(s, 0.0) != s2.contents.get(s, 0.0):
             moved_any = True
+    # the same balance with the books keyed by what identifies a substance (R.ident), not by the library's own equality
+    bi, ai = R.ident_totals(sc, dc), R.ident_totals(s2.contents, d2.contents)
+    for k_ in set(bi) | set(ai):
+        b, a = bi.get(k_, 0.0), ai.get(k_, 0.0)
+        tol = K * q + R.noise(b) + 1e-12 * abs(b)
+        if abs(a - b) > tol:
+            M.violate(['C01'], 'CONS', f'C01:container_transfer_not_conserved:{base}',
+                      {'substance_identity': list(k_), 'before_total': b, 'after_total': a, 'tol': tol,
+                       'quantity': quantity, 'src': F.snap_contents(src), 'dst': F.snap_contents(dst),
+                       'src_after': F.snap_contents(s2), 'dst_after': F.snap_contents(d2)})
+            break
     form = 'C->C' if not nested else 'nested'
     M.bucket(f'C01/unit={base}/form={form}')
     if moved_any:
@@ -784,6 +795,22 @@ def check_plate_transfer(src, dst, quantity, result, exc, op):
         tol = (npairs + 1) * K * q + R.noise(b) * npairs + 1e-12 * abs(b)
         if not M.ratio('CONS.plate', a, b, tol):
             bad_cons = (s.name, b, a, tol)
+    if bad_cons is None and not overlap:
+        # the same balance keyed by what identifies a substance (see R.ident), from the wells themselves
+        def wells_of(o):
+            if isinstance(o, pp.Container):
+                return [o.contents]
+            pl = o.plate if isinstance(o, pp.PlateSlicer) else o
+            return [w_.contents for w_ in pl.wells.flatten()]
+        befores = wells_of(src_obj_before) + ([] if same_plate else wells_of(dst_obj_before))
+        afters = wells_of(r_dst) + ([] if (same_plate) else wells_of(r_src))
+        bi, ai = R.ident_totals(*befores), R.ident_totals(*afters)
+        for k_ in set(bi) | set(ai):
+            b, a = bi.get(k_, 0.0), ai.get(k_, 0.0)
+            tol = (npairs + 1) * K * q + R.noise(b) * npairs + 1e-12 * abs(b)
+            if abs(a - b) > tol:
+                bad_cons = (k_[0] + ' (by identity)', b, a, tol)
+                break
     if bad_cons:
         if overlap:
             mech = f'C01:same_plate_overlapping_regions:{form}:material_not_conserved'
